@@ -1163,6 +1163,17 @@ class Interp:
         owner = ("O", loc[1], loc[2][:-2])
         t = self.loc_ty(owner)
         if t is None or t["k"] != "adt" or t["path"] not in self.rawlock_adts():
+            # a cell reached through a pointer field of a RawLock wrapper (the boxed collection's heap cell holds the
+            # lockable itself, not protected data): report who touches it mutably
+            projs = loc[2][:-1]
+            while projs and projs[-1] == "*":
+                projs = projs[:-1]
+            if projs and isinstance(projs[-1], int):
+                o2 = ("O", loc[1], projs[:-1])
+                t2 = self.loc_ty(o2)
+                if t2 is not None and t2["k"] == "adt" and t2["path"] in self.rawlock_adts():
+                    self.emit(st, {"k": "COLL_DATA_MUT" if mut else "COLL_DATA_REF", "recv": self.recv_name(o2),
+                                   "adt": t2["path"]}, fn, line)
             return
         recv = self.recv_name(self.canon(owner))
         if self.is_exclusive(loc):
